@@ -192,7 +192,8 @@ def run_check(pid, tier, modname):
         "wall_s": round(time.time() - t0, 2),
         "violations": len(violations),
     }
-    with open(os.path.join(ROOT, "evidence", f"{pid}.json"), "w") as f:
+    evdir = "evidence" if not os.environ.get("VERIF_NO_EVIDENCE") else "replays"
+    with open(os.path.join(ROOT, evdir, f"{pid}.json"), "w") as f:
         json.dump(ev, f, indent=1, default=str)
     for kid, (kf, v) in sorted(known_hits.items()):
         print(f"KNOWN-FINDING: property={pid} {kf['what']}")
